@@ -38,7 +38,23 @@ func impostor() {
 			// certificate and serves in plaintext
 			continue
 		}
+		if mode == "chain" && (strings.HasPrefix(e, "PLUGIN_CLIENT_CERT=") || strings.HasPrefix(e, vp.CfgEnv+"=")) {
+			continue
+		}
 		cmd.Env = append(cmd.Env, e)
+	}
+	var announcedPEM string
+	if mode == "chain" {
+		// Announce certificate X, serve with a key pair Y of our own and append X (public) to the
+		// chain we present: we hold no key for what we announced.
+		xPEM, _, _ := vp.StaticTLS()
+		yPEM, yKey, _ := vp.StaticTLS()
+		announcedPEM = xPEM
+		var cfg map[string]interface{}
+		json.Unmarshal([]byte(os.Getenv(vp.CfgEnv)), &cfg)
+		cfg["tls"], cfg["cert_pem"], cfg["key_pem"] = "static_open", yPEM+xPEM, yKey
+		b, _ := json.Marshal(cfg)
+		cmd.Env = append(cmd.Env, vp.CfgEnv+"="+string(b))
 	}
 	cmd.Stderr = os.Stderr
 	stdout, _ := cmd.StdoutPipe()
@@ -49,6 +65,12 @@ func impostor() {
 	line, _ := rd.ReadString('\n')
 	parts := strings.Split(strings.TrimRight(line, "\n"), "|")
 	switch mode {
+	case "chain":
+		for len(parts) < 6 {
+			parts = append(parts, "")
+		}
+		blk, _ := pem.Decode([]byte(announcedPEM))
+		parts[5] = base64.RawStdEncoding.EncodeToString(blk.Bytes)
 	case "nocert": // the line is passed on as the plaintext child printed it
 	case "dropmux": // an old plugin: never prints the multiplexing field
 		if len(parts) > 6 {
